@@ -21,8 +21,22 @@ def sh(cmd, cwd=None, env=None, timeout=3600):
     return r.returncode, (r.stdout + r.stderr)
 
 
-def run_checks(patch, checks, tier="quick"):
+def run_checks(patch, checks, tier="quick", worktree=None):
+    """worktree=None: apply the patch to /repo, run, undo (the documented way).  worktree=<dir with the patch applied>: point
+    the build at that tree instead (VF_REPO), leaving /repo alone - used while a background run is reading /repo."""
     out = {}
+    if worktree:
+        for c in checks:
+            t0 = time.time()
+            env = dict(os.environ, VF_REPO=worktree, VF_EVIDENCE_DIR="/tmp/vf_seed_ev", VF_REPLAYS_DIR="/tmp/vf_seed_ev/replays")
+            r = subprocess.run([os.path.join(VERIF, "check"), c, "--tier", tier], capture_output=True, text=True, env=env, cwd=VERIF)
+            caught = r.returncode == 1 and "VIOLATION" in r.stdout
+            first = [l.strip() for l in r.stdout.splitlines() if l.strip().startswith("oracle=")][:2]
+            summary = [l for l in r.stdout.splitlines() if " tier=" in l][-1:] or [""]
+            out[c] = dict(caught=caught, rc=r.returncode, seconds=round(time.time() - t0, 1), first_violations=[f[:300] for f in first], summary=summary[0][:200], via="VF_REPO=" + worktree)
+            print("  %s: %s (%.0fs) %s" % (c, "CAUGHT" if caught else "missed (rc=%d)" % r.returncode, time.time() - t0, first[0][:160] if first else ""), flush=True)
+        shutil.rmtree("/tmp/vf_seed_ev", ignore_errors=True)
+        return out
     rc, o = sh("git -C /repo status --porcelain --untracked-files=no")
     if o.strip():
         raise SystemExit("/repo has uncommitted changes to tracked files; refusing to apply a seeded patch")
@@ -73,10 +87,11 @@ def main():
     # 3. demonstration with / without the patch
     rc, o1 = sh("sh demo/build.sh >/dev/null 2>&1; ./demo/demo; echo EXIT=$?", cwd=wt)
     fails_with = "EXIT=0" not in o1
-    sh("git stash", cwd=wt)
+    # (no git stash: the stash is shared between all worktrees of a repository)
+    sh("git diff -- SRC CBLAS FORTRAN > /tmp/vf_seed_cur.diff; git apply -R /tmp/vf_seed_cur.diff", cwd=wt)
     rc, o = sh("cmake --build _build 2>&1 | tail -1; sh demo/build.sh >/dev/null 2>&1; ./demo/demo; echo EXIT=$?", cwd=wt)
     passes_without = "EXIT=0" in o
-    sh("git stash pop", cwd=wt)
+    sh("git apply /tmp/vf_seed_cur.diff; rm -f /tmp/vf_seed_cur.diff", cwd=wt)
     ran.append("demo with patch -> %s; demo without patch -> %s" % ("fails" if fails_with else "PASSES (unexpected)", "passes" if passes_without else "FAILS (unexpected)"))
     print("suite with patch: %s; demo with patch fails: %s; demo without patch passes: %s" % (ok_suite, fails_with, passes_without))
     if not (ok_suite and fails_with and passes_without):
@@ -91,7 +106,7 @@ def main():
     notes = ""
     if os.path.exists(os.path.join(demo, "NOTES.md")):
         notes = open(os.path.join(demo, "NOTES.md")).read()
-    res = run_checks(os.path.join(d, "patch.diff"), checks)
+    res = run_checks(os.path.join(d, "patch.diff"), checks, worktree=wt if os.environ.get("VF_SEED_VIA_WORKTREE") else None)
     meta = dict(name=name, property=prop, breaks="see NOTES.md (author's description)", needs_to_manifest="see NOTES.md", author="independent sub-agent given only the property text and a scratch worktree",
                 confirmed=ran, checks=res, checked_at_repo_commit=sh("git -C /repo rev-parse --short HEAD")[1].strip(),
                 how_checked="git -C /repo apply seeded/%s/patch.diff; ./check <id> --tier quick (evidence redirected); git -C /repo checkout -- ." % name)
